@@ -73,7 +73,6 @@ impl Display for SerializedError {
 
 impl std::error::Error for SerializedError {}
 
-#[derive(Default)]
 /// The shared context that should be used in the browser while hydrating.
 pub struct HydrateSharedContext {
     id: AtomicUsize,
@@ -81,6 +80,13 @@ pub struct HydrateSharedContext {
     during_hydration: AtomicBool,
     errors: Lazy<Vec<(SerializedDataId, ErrorId, Error)>>,
     incomplete: Lazy<Vec<SerializedDataId>>,
+}
+
+impl Default for HydrateSharedContext {
+    /// The same context as [`HydrateSharedContext::new`].
+    fn default() -> Self {
+        Self::new()
+    }
 }
 
 impl HydrateSharedContext {
